@@ -219,21 +219,27 @@ static void tr_writer_release_store(uint32_t v) {      /* S2: readers_wait.store
 /* ---- atomic operations: interference, the operation on the SC word, the guarantee, the invariant ----------------------------------- */
 static void on_state_write(uint64_t o, uint64_t n, int mo, int kind);
 static void on_rw_write(uint32_t o, uint32_t n, int mo, int kind);
+/* C04 (order discipline, DESIGN 5.F): the step that makes this coroutine a holder must carry acquire, the step that gives a hold up must carry release */
+#define MO_CHECK(bhw, bhr, mo) do { \
+  if ((me.hw && !(bhw)) || (me.hr && !(bhr))) __CPROVER_assert(MO_ACQ(mo), "C04: MO take: the step that makes this coroutine a holder takes everything earlier holders released, needs acquire"); \
+  if ((!me.hw && (bhw)) || (!me.hr && (bhr))) __CPROVER_assert(MO_REL(mo), "C04: MO give: the step that gives the hold up publishes the critical section, needs release"); } while (0)
 static uint64_t A_load(uint64_t* p, int mo) { env(); return M._state; }
-static uint64_t A_fetch_add(uint64_t* p, uint64_t d, int mo) { env(); uint64_t o = M._state; M._state = o + d; on_state_write(o, o + d, mo, RG_ADD); INV_ASSERT("after fetch_add(state)"); return o; }
-static uint64_t A_fetch_sub(uint64_t* p, uint64_t d, int mo) { env(); uint64_t o = M._state; M._state = o - d; on_state_write(o, o - d, mo, RG_SUB); INV_ASSERT("after fetch_sub(state)"); return o; }
+static uint64_t A_fetch_add(uint64_t* p, uint64_t d, int mo) { env(); uint64_t o = M._state; M._state = o + d; unsigned char bw = me.hw, br = me.hr; on_state_write(o, o + d, mo, RG_ADD); MO_CHECK(bw, br, mo); INV_ASSERT("after fetch_add(state)"); return o; }
+static uint64_t A_fetch_sub(uint64_t* p, uint64_t d, int mo) { env(); uint64_t o = M._state; M._state = o - d; unsigned char bw = me.hw, br = me.hr; on_state_write(o, o - d, mo, RG_SUB); MO_CHECK(bw, br, mo); INV_ASSERT("after fetch_sub(state)"); return o; }
 static int A_cas_strong(uint64_t* p, uint64_t* e, uint64_t d, int ms, int mf) {
   env(); uint64_t o = M._state;
-  if (o == *e) { M._state = d; on_state_write(o, d, ms, RG_CAS); INV_ASSERT("after CAS(state)"); return 1; }
+  if (o == *e) { M._state = d; unsigned char bw = me.hw, br = me.hr; on_state_write(o, d, ms, RG_CAS); MO_CHECK(bw, br, ms); INV_ASSERT("after CAS(state)"); return 1; }
   *e = o; return 0;
 }
 static int A_cas_weak(uint64_t* p, uint64_t* e, uint64_t d, int ms, int mf) {
   env(); uint64_t o = M._state;
-  if (o == *e && !nondet_bool()) { M._state = d; on_state_write(o, d, ms, RG_CAS); INV_ASSERT("after CAS(state)"); return 1; }
+  if (o == *e && !nondet_bool()) { M._state = d; unsigned char bw = me.hw, br = me.hr; on_state_write(o, d, ms, RG_CAS); MO_CHECK(bw, br, ms); INV_ASSERT("after CAS(state)"); return 1; }
   *e = o; return 0;
 }
-static uint32_t A32_fetch_add(uint32_t* p, uint32_t d, int mo) { env(); uint32_t o = M._readers_wait; M._readers_wait = o + d; on_rw_write(o, o + d, mo, RG_ADD); INV_ASSERT("after fetch_add(readers_wait)"); return o; }
-static uint32_t A32_fetch_sub(uint32_t* p, uint32_t d, int mo) { env(); uint32_t o = M._readers_wait; M._readers_wait = o - d; on_rw_write(o, o - d, mo, RG_SUB); INV_ASSERT("after fetch_sub(readers_wait)"); return o; }
+static uint32_t A32_fetch_add(uint32_t* p, uint32_t d, int mo) { env(); uint32_t o = M._readers_wait; M._readers_wait = o + d; unsigned char bw = me.hw, br = me.hr; on_rw_write(o, o + d, mo, RG_ADD); MO_CHECK(bw, br, mo); INV_ASSERT("after fetch_add(readers_wait)"); return o; }
+static uint32_t A32_fetch_sub(uint32_t* p, uint32_t d, int mo) { env(); uint32_t o = M._readers_wait; M._readers_wait = o - d; on_rw_write(o, o - d, mo, RG_SUB);
+  __CPROVER_assert(MO_REL(mo), "C04: MO give: a reader paying the first writer's debt continues the release of its critical section towards that writer, needs release");
+  if (o == d) __CPROVER_assert(MO_ACQ(mo), "C04: MO take: the last payment makes the first writer the holder: it takes what every earlier reader released, needs acquire"); INV_ASSERT("after fetch_sub(readers_wait)"); return o; }
 static void A32_store(uint32_t* p, uint32_t d, int mo) { env(); uint32_t o = M._readers_wait; M._readers_wait = d; on_rw_write(o, d, mo, RG_STORE); INV_ASSERT("after store(readers_wait)"); }
 /* abstract readers container */
 static void READERS_PUSH(Node* n) { __CPROVER_assert(me.lock, "readers list only under the spinlock"); g.rl++; }
